@@ -22,10 +22,13 @@ from ..partition import MiniInterp, Opaque, FRESH
 LEVEL = "other"
 TECHNIQUE = ("boolean-function comparison of guards by branch partition; producer/consumer vocabulary agreement; tuple-shape "
              "agreement of sibling walkers; CFG pairing of the cursor stack")
-CLAIM = ("The void-element decision is one boolean function used consistently by the start side, the end side and the Lint "
-         "filter (decided for every namespace class x name class); every token kind produced for parsed trees is understood "
-         "by every consumer in the package; both walkers hand __iter__ tuples of the shapes it unpacks with attribute keys of "
-         "the same form; the etree walker's ancestor stack is pushed before every descent and popped exactly once per ascent.")
+CLAIM = ('The void-element decision is one boolean function used consistently by the start side, the end side '
+         'and the Lint filter (decided for every namespace class x name class); every token kind produced for '
+         'parsed trees is understood by every consumer in the package; both walkers hand __iter__ tuples of '
+         "the shapes it unpacks with attribute keys of the same form; the etree walker's ancestor stack is "
+         'pushed before every descent and popped exactly once per ascent. text() yields leading HTML white '
+         'space, text, trailing HTML white space as non-empty tokens for every sequence of character classes '
+         'up to length 4; the {namespace}local splitter ends the namespace at the first closing brace.')
 NOT_DECIDED = ("the traversal itself (index arithmetic, tail handling, balance of start/end tags), rebuild equality, equality "
                "of the etree and dom streams.")
 MODULES = ["treewalkers/base.py", "treewalkers/etree.py", "treewalkers/dom.py", "treewalkers/__init__.py", "filters/lint.py",
